@@ -42,6 +42,8 @@ FOLLOW = [
      {"e": "Sel", "i": -1}, {"e": "Tick", "ms": 100, "k": 3}],
     [{"e": "Tick", "ms": 1000, "k": 5}, {"e": "Reset"}, {"e": "Tick", "ms": 100, "k": 3}, {"e": "Rewind"}, {"e": "Total"}, {"e": "Play", "n": 128}],
     [{"e": "LoopCount", "n": -1}, {"e": "Loop", "en": 1}, {"e": "Play", "n": 1024}, {"e": "Seek", "k": 3}, {"e": "Play", "n": 256}, {"e": "Seek", "k": 2}, {"e": "Tell"}],
+    # seek into the middle with looping on, then play on for a long while (loop state entered "from the side")
+    [{"e": "Loop", "en": 1}, {"e": "Seek", "k": 2}, {"e": "Tick", "ms": 500, "k": 14}, {"e": "AtEnd"}, {"e": "Seek", "k": 2}, {"e": "Tick", "ms": 250, "k": 8}],
 ]
 PRE = [[], [], [], [{"e": "Loop", "en": 1}], [{"e": "LoopCount", "n": 2}, {"e": "Loop", "en": 1}], [{"e": "LoopCount", "n": -1}]]
 
@@ -324,6 +326,11 @@ def handwritten_loads():
     add("xmi-for-loop", xmi_file([0xB0, 116, 2, 0x90, 60, 100, 10, 20, 0xB0, 117, 127, 0xFF, 0x2F, 0]))
     add("xmi-for-loop-infinite", xmi_file([0xB0, 116, 0, 0x90, 60, 100, 10, 20, 0xB0, 117, 127, 0xFF, 0x2F, 0]))
     add("xmi-break-without-for", xmi_file([0xB0, 117, 0, 0x90, 60, 100, 10, 0xFF, 0x2F, 0]))
+    # FOR ... BREAK ... FOR ... NEXT with a long first body: a seek to the middle lands inside the first body
+    add("xmi-for-break-for", xmi_file([0xB0, 116, 2, 0x90, 60, 100, 10, 127, 127, 127, 0xB0, 117, 0, 20, 0xB0, 116, 2, 0x90, 62, 100, 10, 20,
+                                       0xB0, 117, 127, 0xFF, 0x2F, 0]))
+    add("xmi-for-next-nested-long", xmi_file([0xB0, 116, 2, 0x90, 60, 100, 10, 127, 0xB0, 116, 3, 0x90, 64, 100, 5, 127, 127, 0xB0, 117, 127, 20,
+                                              0xB0, 117, 127, 0xFF, 0x2F, 0]))
     add("imf-small", [4, 0, 1, 1, 0, 0] + [0] * 8)
     add("rsxx-small", [93] + [0] * 76 + list(b"rsxx}u") + [0] * 10 + [0x90, 60, 100, 0x10, 0x80, 60, 0])
     return L
